@@ -407,6 +407,15 @@ Definition next_ok (short : bool) (n : str) (next : word) : Prop :=
   | _ => True
   end.
 
+(* a literal that continues a word after a quoted part or an expansion must not start
+   with '#': the real lexer then reads past a following ')' (observed: `(x 'a'#b)` does
+   not parse), which this byte-level model does not reproduce; such words are excluded *)
+Definition hash_ok (next : word) : Prop :=
+  match next with
+  | Lit (c :: _) :: _ => c <> 35
+  | _ => True
+  end.
+
 (* a Lit may end in a lone backslash only at the very end of the word
    (the lexer yields that only for a backslash at the end of the input) *)
 Inductive wf_word : word -> Prop :=
@@ -415,10 +424,10 @@ Inductive wf_word : word -> Prop :=
     (match rest with Lit _ :: _ => False | _ => True end) ->
     wf_word rest -> wf_word (Lit v :: rest)
 | wfw_lit_lone v : wf_lit_body v -> wf_word [Lit (v ++ [BS])]
-| wfw_sgl v rest : no_sq v -> wf_word rest -> wf_word (Sgl false v :: rest)
-| wfw_dsgl v rest : wf_dsgl v -> wf_word rest -> wf_word (Sgl true v :: rest)
-| wfw_dbl d ps rest : wf_qparts ps -> wf_word rest -> wf_word (Dbl d ps :: rest)
-| wfw_param short n rest : wf_param short n -> next_ok short n rest ->
+| wfw_sgl v rest : no_sq v -> hash_ok rest -> wf_word rest -> wf_word (Sgl false v :: rest)
+| wfw_dsgl v rest : wf_dsgl v -> hash_ok rest -> wf_word rest -> wf_word (Sgl true v :: rest)
+| wfw_dbl d ps rest : wf_qparts ps -> hash_ok rest -> wf_word rest -> wf_word (Dbl d ps :: rest)
+| wfw_param short n rest : wf_param short n -> next_ok short n rest -> hash_ok rest ->
     wf_word rest -> wf_word (Param short n :: rest).
 
 (* delimiters the round-trip theorem quantifies over: blank, tab, newline, ; & | )
